@@ -285,7 +285,9 @@ def recipes():
                                                                                  k.dataset(n_fold=4, n_ch=3)], 'cond'],
                           {'method': ['shrinkage_diag', 'shrinkage_eye', 'full'][k.variant % 3]})
     for n in ('cov_from_residuals', 'prec_from_residuals'):
-        R[n] = lambda k: ([k.rng.standard_normal((20, 3)) if k.variant != 2 else
+        # variant 3: column-major residuals with non-zero channel means (a transposed channels x time recording)
+        R[n] = lambda k: ([np.asfortranarray(k.rng.standard_normal((20, 3)) + 1.5) if k.variant == 3 else
+                           k.rng.standard_normal((20, 3)) if k.variant != 2 else
                            [k.rng.standard_normal((20, 3)), k.rng.standard_normal((15, 3))]],
                           {'method': ['shrinkage_diag', 'shrinkage_eye', 'diag'][k.variant % 3]})
     # --- model
